@@ -445,4 +445,42 @@ def c04_equal_frames_cut(cut_back=1):
     out, end = _read_all(io.BytesIO(data[: len(data) - cut_back]))
     return {"violates": len(out) != 1, "detail": f"two equal record frames, the file ends {cut_back} byte(s) early: yielded {len(out)} record(s), ended {end}"}
 
-CALLS = {"c04_equal_frames_cut": c04_equal_frames_cut, "c04_extra_bytes": c04_extra_bytes, "c04_short_prefix": c04_short_prefix, "c04_gz_flushpoint": c04_gz_flushpoint, "c04_large_values": c04_large_values, "c04_roundtrip": c04_roundtrip, "c04_cut": c04_cut, "c04_unknown_identifier": c04_unknown_identifier, "c04_fail": c04_fail, "c04_sweep": c04_sweep, "c04_model_conformance": c04_model_conformance}
+
+def c04_short_mid(call=7, keep=47):
+    import datetime
+
+    from flow.record import Record, RecordDescriptor
+    from flow.record.stream import RecordStreamReader, RecordStreamWriter
+
+    GEN = datetime.datetime(2024, 5, 6, 7, 8, 9, 123456, tzinfo=datetime.timezone.utc)
+    SIZES = [10, 300, 250, 700, 40]
+    D = RecordDescriptor("c04/blob", [("string", "s"), ("varint", "n"), ("bytes", "blob")])
+    recs = [D(n=10 + i, s="r%d" % i, blob=b"A" * size, _generated=GEN) for i, size in enumerate(SIZES)]
+    fp = _ShortOnce(at=call, keep=keep)
+    w = RecordStreamWriter(fp)
+    accepted = True
+    try:
+        for r in recs:
+            w.write(r)
+    except Exception:
+        accepted = False
+    w.fp = None
+    out, end = [], "stop"
+    try:
+        for o in RecordStreamReader(io.BytesIO(bytes(fp.data))):
+            out.append((o.n, o.s, len(o.blob or b""), repr(o._generated)) if isinstance(o, Record) else repr(o)[:60])
+    except Exception as e:
+        end = f"raise {type(e).__name__}"
+    want = [(10 + i, "r%d" % i, size, repr(GEN)) for i, size in enumerate(SIZES)]
+    damaged = (call - 4) // 2
+    bad, k = out[:damaged] != want[:damaged], damaged
+    for o in out[damaged:]:
+        while k < len(want) and want[k] != o:
+            k += 1
+        if k == len(want):
+            bad = True
+            break
+        k += 1
+    return {"violates": bad, "detail": f"write call {call} stored {keep} byte(s) (short write), writer {'returned normally' if accepted else 'raised'}: read back {[o if isinstance(o, str) else o[0] for o in out]!r}, ended {end}; written {[w_[0] for w_ in want]!r}"}
+
+CALLS = {"c04_short_mid": c04_short_mid, "c04_equal_frames_cut": c04_equal_frames_cut, "c04_extra_bytes": c04_extra_bytes, "c04_short_prefix": c04_short_prefix, "c04_gz_flushpoint": c04_gz_flushpoint, "c04_large_values": c04_large_values, "c04_roundtrip": c04_roundtrip, "c04_cut": c04_cut, "c04_unknown_identifier": c04_unknown_identifier, "c04_fail": c04_fail, "c04_sweep": c04_sweep, "c04_model_conformance": c04_model_conformance}
